@@ -1,6 +1,8 @@
 package disk
 
 import (
+	"os"
+	"time"
 	"fmt"
 	"math/rand"
 	"sort"
@@ -37,6 +39,7 @@ func genC20(verifSeed int64, tier string, idx int) *core.Scenario {
 	if r.Intn(4) == 0 {
 		maxNodes = 12 // medium: a few KiB encoded
 	}
+	huge := r.Intn(40) == 0
 	shrinkNew := r.Intn(2) == 0 // the new document is shorter than what earlier (possibly killed) stores wrote
 	for i := 0; i < 3; i++ {
 		mn := maxNodes
@@ -47,6 +50,14 @@ func genC20(verifSeed int64, tier string, idx int) *core.Scenario {
 			mn = maxNodes*2 + 2
 		}
 		d := genDoc(r, fmt.Sprintf("d%d", i), mn)
+		if huge && i < 2 {
+			// beyond any plausible "large document" threshold: tens of thousands of (minimal) nodes
+			d = genDoc(r, fmt.Sprintf("d%d", i), 1)
+			n := []int{70000, 66000}[i] + r.Intn(3000)
+			for k := 0; k < n; k++ {
+				d.NodeList.Nodes = append(d.NodeList.Nodes, &sbom.Node{Id: fmt.Sprintf("h%d-%d", i, k), Name: fmt.Sprintf("d%d", i)})
+			}
+		}
 		b, err := proto.MarshalOptions{Deterministic: true}.Marshal(d)
 		if err != nil {
 			panic(err)
@@ -73,10 +84,13 @@ func genC20(verifSeed int64, tier string, idx int) *core.Scenario {
 		sp.Pre = append(sp.Pre, Step{K: "CrashedStore", D: 1, ID: 1 + r.Intn(2), Dmg: fmt.Sprint(r.Intn(1 << 20))})
 	}
 	sp.Steps = []Step{{K: "Store", D: 0, ID: 0, NoClobber: r.Intn(4) == 0, Via: []string{"fs", "rw"}[r.Intn(2)]}}
-	if r.Intn(2) == 0 {
+	if r.Intn(2) == 0 && !huge {
 		for i := 0; i < 4; i++ {
 			sp.WriteSplit = append(sp.WriteSplit, []int{0, 1, 5, 33, 200}[r.Intn(5)])
 		}
+	}
+	if huge {
+		sp.TornLimit = 24 // megabytes per write: a few prefixes of each, all call boundaries
 	}
 	sc := &core.Scenario{V: 1, Property: "C20", Engine: "disk", VerifSeed: verifSeed, Run: idx, RunSeed: seed}
 	sc.Sched = verifsim.Config{Seed: seed, Policy: "serial", MaxSteps: 2000000, MapOrder: "random"}
@@ -281,6 +295,7 @@ func execC20(sc *core.Scenario) *core.Result {
 	var slots []slot
 	exhaustive := true
 	rr := rand.New(rand.NewSource(int64(sc.RunSeed) + 7))
+	sparse := sp.TornLimit > 0 && sp.TornLimit < 64 // documents of megabytes: every call boundary, few torn prefixes per write
 	for _, ev := range trace {
 		slots = append(slots, slot{simos.CrashPoint{Event: ev.N, When: "before"}, "before-" + ev.Call})
 		if ev.Call == "write" && ev.Arg > 0 {
@@ -292,16 +307,30 @@ func execC20(sc *core.Scenario) *core.Result {
 				}
 			} else {
 				exhaustive = false
-				for k := 0; k < 16 && k < n; k++ {
+				edge, random := 16, 64
+				if sparse {
+					edge, random = 3, 6
+				}
+				for k := 0; k < edge && k < n; k++ {
 					offs[k] = true
 					offs[n-1-k] = true
 				}
-				for i := 0; i < 64; i++ {
+				for i := 0; i < random; i++ {
 					offs[rr.Intn(n)] = true
 				}
 			}
 			// field boundaries of the new document's encoding (the write carries a slice of it)
-			for _, fb := range fieldBoundaries(mustMarshal(newDoc)) {
+			fbs := fieldBoundaries(mustMarshal(newDoc))
+			if sparse && len(fbs) > 12 {
+				// a very large document: a sample of its field boundaries
+				exhaustive = false
+				keep := append([]int{}, fbs[:2]...)
+				for i := 0; i < 6; i++ {
+					keep = append(keep, fbs[rr.Intn(len(fbs))])
+				}
+				fbs = keep
+			}
+			for _, fb := range fbs {
 				for _, k := range []int{fb - 1, fb, fb + 1} {
 					if k >= 0 && k < n {
 						offs[k] = true
@@ -326,7 +355,12 @@ func execC20(sc *core.Scenario) *core.Result {
 		slots = slots[sp.SlotLo:sp.SlotHi] // replay files may restrict the enumeration to a range of slots
 		exhaustive = false
 	}
-	for _, sl := range slots {
+	dbg := os.Getenv("VERIF_C20_DEBUG") != ""
+	t0 := time.Now()
+	for si, sl := range slots {
+		if dbg && si%10 == 0 {
+			if f, err := os.OpenFile("/tmp/c20debug.log", os.O_APPEND|os.O_CREATE|os.O_WRONLY, 0o644); err == nil { fmt.Fprintf(f, "slot %d of %d, %.1fs\n", si, len(slots), time.Since(t0).Seconds()); f.Close() }
+		}
 		d := pre.Clone()
 		cp := sl.cp
 		sr, _, _ := runStore(d, &cp)
